@@ -4,6 +4,7 @@ from __future__ import annotations
 import ast
 import json
 import os
+import re as _re
 import time
 import traceback
 from dataclasses import dataclass, field
@@ -129,12 +130,25 @@ class RuleCtx:
     def note(self, msg):
         self.notes.append(msg)
 
-    def sub(self, fn):
-        """Run another rule function under this rule's id; a 'cannot decide' there does not stop the remaining obligations."""
+    def sub(self, fn, only=None, drop=None):
+        """Run another rule function under this rule's id; a 'cannot decide' there does not stop the remaining obligations.
+        only / drop: regular expressions matched at the start of the role - the including property keeps just the obligations that are necessary conditions of *it*
+        (a sibling property's rule usually proves more than the includer needs)."""
+        n0 = len(self.obls)
         try:
             fn(self)
         except (AnalysisError, Opaque) as e:
             self.error(self.rd.rid, f"cannot decide ({getattr(fn, '__module__', '').split('.')[-1]}.{getattr(fn, '__name__', '?')}): {e}")
+        if only is not None or drop is not None:
+            kept = []
+            for o in self.obls[n0:]:
+                if o.status != "error":
+                    if only is not None and not any(_re.match(p_, o.role) for p_ in only):
+                        continue
+                    if drop is not None and any(_re.match(p_, o.role) for p_ in drop):
+                        continue
+                kept.append(o)
+            self.obls[n0:] = kept
 
 
 def _jsonable(d):
